@@ -83,6 +83,34 @@ def _with_empty(rng, stats):
     return stats
 
 
+def _special_stats(rng, stats, y, means):
+    """Coincidences a continuous generator never draws: a class whose utterances sit exactly at
+    the UBM means (digital silence modelled by the UBM), a class of empty utterances only,
+    utterances recorded twice."""
+    r = rng.random()
+    if r < 0.07:
+        cls = rng.choice(sorted(set(y)))
+        for i, lab in enumerate(y):
+            if lab == cls:
+                n = np.round(A(stats[i]["n"]) * 4.0 + 1.0)  # whole frame counts
+                px = n[:, None] * means
+                stats[i] = dict(stats[i], n=L(n), sum_px=L(px),
+                                sum_pxx=L(n[:, None] * (means * means)), t=int(n.sum()))
+    elif r < 0.11:
+        cls = rng.choice(sorted(set(y)))
+        for i, lab in enumerate(y):
+            if lab == cls:
+                z = stats[i]
+                stats[i] = {"n": [0.0] * len(z["n"]),
+                            "sum_px": [[0.0] * len(q) for q in z["sum_px"]],
+                            "sum_pxx": [[0.0] * len(q) for q in z["sum_pxx"]], "t": 0, "ll": 0.0}
+    elif r < 0.17 and len(stats) > 1:
+        for _ in range(rng.randint(1, 3)):
+            i, j = rng.sample(range(len(stats)), 2)
+            stats[i] = dict(stats[j])
+    return stats
+
+
 def _gen_layout(rng, N):
     r = rng.random()
     if r < 0.35:
@@ -116,7 +144,8 @@ def gen_case(rng, tier, kind=None, N=None, nc=None):
     case = {
         "kind": kind,
         "ubm": {"c": c, "means": L(means), "variances": L(variances), "weights": L(weights)},
-        "stats": _with_empty(rng, _gen_stats(rng, N, c, d, means, variances)),
+        "stats": _special_stats(rng, _with_empty(rng, _gen_stats(rng, N, c, d, means, variances)),
+                                y, means),
         "y": y,
         "yform": rng.choice(["list", "array", "bag", "int32", "uint8", "tuple"]),
         "layout": _gen_layout(rng, N),
